@@ -28,6 +28,10 @@
 //! nothing, and the complete probe key (every field of the source incl. stash contents)
 //! is identical before and after. For an authentic datagram the cookies added to the stash
 //! must be exactly the cookie fields of the decrypted plaintext (or nothing at all).
+//! A second delivery of an authentic datagram is judged by the same predicate: once the
+//! request is consumed, expired or superseded it is a `replay:*` and must have no effect; an
+//! authentic kiss does not consume the request, so its duplicate is still authenticated and
+//! bound and C07 does not restrict it (single use of cookies is C13's subject).
 use std::collections::{BTreeMap, HashMap, HashSet};
 use std::net::{IpAddr, Ipv4Addr, SocketAddr};
 use std::sync::{Arc, Mutex, RwLock};
@@ -960,6 +964,11 @@ fn alphabet(rig: &Rig, k: &Key, all_bits: bool) -> Vec<(String, Vec<u8>)> {
                 let mut d = p.clone();
                 d.extend(authenticator(&*rig.s2c, &p, &[]));
                 out.push((format!("auth:kiss-{code}"), d));
+                // the same kiss carrying a cookie in its encrypted part
+                let ck = ef(v5, T_COOKIE, &[0xC5; 48], 0);
+                let mut d = p.clone();
+                d.extend(authenticator(&*rig.s2c, &p, &ck));
+                out.push((format!("auth:kiss-{code}+cookie"), d));
             }
         }
         // cookies in all three positions: only the encrypted ones may be stored
@@ -1089,11 +1098,16 @@ fn inject(rig: &mut Rig, before: &Key, desc: &str, d: &[u8]) -> Verdict {
             let b = before.cookies.clone().unwrap_or_default();
             let got = after.cookies.clone().unwrap_or_default();
             let accepted = log.iter().any(|l| l.starts_with("meas"));
-            let want = match (&a.cookies, accepted) {
-                (Some(c), true) => fifo_push(&b, c),
-                _ => b.clone(),
+            // The statement only restricts WHERE new cookies may come from: whatever was
+            // added must be exactly the cookie fields of the encrypted part (an accepted time
+            // answer has to take them; for other authentic datagrams, e.g. an authenticated
+            // kiss carrying cookies, taking them or not is not C07's business - C13 judges
+            // single use / order / capacity).
+            let want = match &a.cookies {
+                Some(c) => fifo_push(&b, c),
+                None => b.clone(),
             };
-            if got != want {
+            if got != want && (accepted || got != b) {
                 violations.push((
                     "C07:cookie-origin".into(),
                     format!(
